@@ -141,6 +141,16 @@ package lexer
 //@   trusted
 //@   ensures result1 == nil ==> result0 != nil && uf("re_anchored", "Bool", result0)
 
+//@ func (ActionPop).applyAction [C07 C03]
+//@   implements Action.applyAction
+//@   ensures result == nil ==> len(lexer.stack) == len(old(lexer.stack)) - 1 && &lexer.stack[0] == &old(lexer.stack)[0]
+
+//@ func (ActionPush).applyAction [C07 C03]
+//@   implements Action.applyAction
+//@   ensures result == nil ==> len(lexer.stack) == len(old(lexer.stack)) + 1 && lexer.stack[len(lexer.stack)-1].name == p.State
+//@   ensures result == nil ==> lexer.stack[len(lexer.stack)-1].groups == groups
+//@   ensures result == nil ==> forall(k, 0, len(old(lexer.stack)), lexer.stack[k] == old(lexer.stack[k]))
+
 //@ func (*StatefulLexer).Next [C07 C04 C03 C06]
 //@   requires slInv(l)
 //@   modifies l.stack, l.data, l.pos
@@ -149,9 +159,12 @@ package lexer
 //@   ensures old(l.data) == "" ==> l.stack == old(l.stack) && l.data == old(l.data) && l.pos == old(l.pos)
 //@   ensures result1 == nil ==> (result0.Type == EOF && result0.Value == "" && l.data == "" && result0.Pos == l.pos) || (len(result0.Value) > 0 && len(l.data) + len(result0.Value) <= len(old(l.data)))
 //@   loop 1 invariant slInv(l) && len(l.data) <= len(old(l.data))
+//@   loop 1 invariant rules == l.def.rules[l.stack[len(l.stack)-1].name]
+//@   loop 1 invariant old(l.data) == "" ==> l.stack == old(l.stack) && l.pos == old(l.pos)
 //@   loop 1 decreases len(l.data), len(l.stack)
 //@   loop 2 invariant slInv(l) && match == nil && rule == nil && -1 <= rangeindex && len(l.data) > 0
 //@   loop 2 invariant forall(j, 0, len(rules), ruleOK(rules[j]))
 //@   loop 2 decreases len(rules) - rangeindex
 //@   loop 3 invariant 0 <= i && i % 2 == 0 && len(groups) == i / 2
+//@   loop 3 invariant i > 0 ==> groups[0] == l.data[match[0]:match[1]]
 //@   loop 3 decreases len(match) - i
